@@ -425,6 +425,25 @@ func runC10(seed int64, n int, dir string, tier string) *Report {
 		}
 		empty := &sbom.NodeList{}
 		addCase(a, b)
+		{
+			// the same list VALUE as receiver and argument (not a copy of it): still the intersection
+			self := clone(a)
+			beforeCoq := coqfmt.NodeList(self)
+			var got *sbom.NodeList
+			pv := safely(func() { got = self.Intersect(self) })
+			rep.OracleEvals++
+			if pv != nil || got == nil {
+				rep.Fail(Failure{What: "Intersect of a list with itself panicked or returned nothing", Detail: fmt.Sprint(pv), Input: pairInput([]string{"a"}, a)})
+			} else {
+				c := fmt.Sprintf("(mk_case08 %s (OpIntersect %s) 0 %s)", beforeCoq, beforeCoq, coqfmt.NodeList(got))
+				cf.Add(c)
+				rep.NoteCase(c, len(a.Nodes) > 0, map[string]any{"before": graphops.PJ(a), "op": "Intersect with the list itself (same value)", "after": graphops.PJ(got)})
+				want := clone(a).Intersect(clone(a))
+				if !setsOf(got).same(setsOf(want)) {
+					rep.Fail(Failure{What: "Intersect: a list intersected with itself differs from the list intersected with a copy of itself", Input: pairInput([]string{"a"}, a)})
+				}
+			}
+		}
 		if i%4 == 0 {
 			addCase(a, a)
 			addCase(a, clone(a).Union(clone(b)))
